@@ -40,11 +40,19 @@ pub fn build(cx: &Ctx, a: &Value) -> Error {
     for l in a["loc"].as_array().unwrap().iter().rev() {
         e = e.at(l.as_str().unwrap());
     }
-    let sp = a["sp"].as_u64().unwrap();
+    let sp = span_id(&a["sp"]);
     if sp != 0 {
         e = e.with_span(&cx.spans.get(sp));
     }
     e
+}
+
+/// span record of the spec -> id of the span table (0 = NoSpan)
+pub fn span_id(v: &Value) -> u64 {
+    v["pos"].as_array().and_then(|p| p.first()).and_then(|x| x.as_u64()).unwrap_or(0)
+}
+pub fn span_rec(id: u64) -> Value {
+    if id == 0 { json!({"pos": [], "part": ""}) } else { json!({"pos": [id], "part": "item"}) }
 }
 
 fn split_loc(disp: &str, kindmsg: &str) -> Vec<String> {
@@ -59,7 +67,7 @@ fn split_loc(disp: &str, kindmsg: &str) -> Vec<String> {
 
 /// Project a real value back to the abstract tree, using only the public API.
 pub fn project(cx: &Ctx, e: &Error) -> Value {
-    let sp = e.explicit_span().map(|s| cx.spans.id_of(s)).unwrap_or(0);
+    let sp = span_rec(e.explicit_span().map(|s| cx.spans.id_of(s)).unwrap_or(0));
     let disp = e.to_string();
     if e.len() > 1 {
         let kids: Vec<Error> = e.clone().into_iter().collect();
@@ -98,12 +106,12 @@ pub fn observe(cx: &Ctx, e: &Error) -> Value {
         .clone()
         .flatten()
         .into_iter()
-        .map(|l| json!({"d": l.to_string(), "sp": l.explicit_span().map(|s| cx.spans.id_of(s)).unwrap_or(0)}))
+        .map(|l| json!({"d": l.to_string(), "sp": span_rec(l.explicit_span().map(|s| cx.spans.id_of(s)).unwrap_or(0))}))
         .collect();
     let syn_err: syn::Error = e.clone().into();
     let syn: Vec<Value> = syn_err
         .into_iter()
-        .map(|s| json!({"msg": s.to_string(), "sp": cx.spans.id_of(s.span())}))
+        .map(|s| json!({"msg": s.to_string(), "sp": span_rec(cx.spans.id_of(s.span()))}))
         .collect();
     json!({"len": e.len(), "disp": e.to_string(), "flat": flat, "syn": syn})
 }
